@@ -106,8 +106,13 @@ def read_gro(path):
     return atoms, [float(x) for x in lines[2 + n].split()], len(lines) - (3 + n)
 
 
-def _run_one(arg):
-    case, sd = arg
+FIXED_MTIME = 1700000000      # every input file of a history carries this time stamp, whatever its content
+
+
+def _run_in(wd, case, sd, split=None, in_place=False):
+    """one real gen_coords call on the case rendered into directory wd.  in_place: the directory is reused by a history of calls -
+    files are overwritten under the same names, files the case does not have are removed, time stamps are forced to FIXED_MTIME"""
+    import os
     from polyply import gen_coords
     from vermouth.file_writer import DeferredFileWriter
     opt, mollist = case["opt"], case["mollist"]
@@ -122,55 +127,92 @@ def _run_one(arg):
         return kinds[0]
     np.random.seed(sd)
     random.seed(sd)
+    wd = Path(wd)
+    written = []
+
+    def put(name, text):
+        (wd / name).write_text(text)
+        written.append(name)
+    main, inc = top_text(mollist, split_include=(sd % 3 == 0) if split is None else split)
+    put("s.top", main)
+    if inc is not None:
+        put("mols.itp", inc)
+    kw = {}
+    if any(e["type"] == "L" for e in mollist):
+        kw["nrewind"] = 2          # short rewinds across residues that are given (skipped steps)
+        budget["n"] = rng.randint(2, 6)
+    if opt["struct"] != "none":
+        txt, _ = struct_gro(listing, opt["struct"], mollist, ("RB",) if opt["res"] else ())
+        put("in.gro", txt)
+        kw["coordpath_meta" if opt["struct"] == "meta" else "coordpath"] = wd / "in.gro"
+    if opt["box"]:
+        kw["box"] = np.array(BOX_STRUCT if (opt["struct"] != "none" and not opt["differ"]) else BOX_OPT)
+    if opt["dens"]:
+        kw["density"] = DENS
+    if opt["bld"]:
+        put("o.bld", "[ volumes ]\nW 0.45\n")
+        kw["build"] = [wd / "o.bld"]
+    if opt["res"]:
+        kw["build_res"] = ["RB"]
+    if opt["grid"]:
+        g = np.random.default_rng(sd).uniform(0.2, 2.0, (200, 3))
+        np.savetxt(wd / "grid.dat", g)
+        written.append("grid.dat")
+        kw["grid"] = str(wd / "grid.dat")
+    if opt["start"]:
+        first = mollist[0]["type"]
+        kw["start"] = [{"A": "A-RB#2", "V": "V-RA#2", "W": "W-W#1", "L": "L-RA#3"}[first]]
+    if in_place:
+        for f in wd.iterdir():
+            if f.name not in written:
+                f.unlink()
+        for name in written:
+            os.utime(wd / name, (FIXED_MTIME, FIXED_MTIME))
+    with w.recording(chooser=chooser) as rec:
+        try:
+            gen_coords(toppath=wd / "s.top", outpath=wd / "out.gro", name="c03", max_force=1e12, **kw)
+            DeferredFileWriter().write()
+        except _Timeout:
+            return {"noverdict": "timeout"}
+        except w.NoVerdict as exc:
+            return {"noverdict": str(exc)}
+        except Exception as exc:
+            return {"error_in_code": "%s: %s" % (type(exc).__name__, exc), "evs": rec.events[-10:], "inst": rec.header}
+    atoms, box, extra = read_gro(wd / "out.gro")
+    return {"atoms": atoms, "box": box, "extra_lines": extra, "evs": rec.events, "inst": rec.header, "error_in_code": None}
+
+
+def _run_one(arg):
+    case, sd = arg
     signal.signal(signal.SIGALRM, _alarm)
     signal.setitimer(signal.ITIMER_REAL, 170, 5)
     try:
         with tempfile.TemporaryDirectory(prefix="verif_c03_", dir="/var/tmp") as wd:
-            wd = Path(wd)
-            main, inc = top_text(mollist, split_include=(sd % 3 == 0))
-            (wd / "s.top").write_text(main)
-            if inc is not None:
-                (wd / "mols.itp").write_text(inc)
-            kw = {}
-            if any(e["type"] == "L" for e in mollist):
-                kw["nrewind"] = 2          # short rewinds across residues that are given (skipped steps)
-                budget["n"] = rng.randint(2, 6)
-            if opt["struct"] != "none":
-                txt, _ = struct_gro(listing, opt["struct"], mollist, ("RB",) if opt["res"] else ())
-                (wd / "in.gro").write_text(txt)
-                kw["coordpath_meta" if opt["struct"] == "meta" else "coordpath"] = wd / "in.gro"
-            if opt["box"]:
-                kw["box"] = np.array(BOX_STRUCT if (opt["struct"] != "none" and not opt["differ"]) else BOX_OPT)
-            if opt["dens"]:
-                kw["density"] = DENS
-            if opt["bld"]:
-                (wd / "o.bld").write_text("[ volumes ]\nW 0.45\n")
-                kw["build"] = [wd / "o.bld"]
-            if opt["res"]:
-                kw["build_res"] = ["RB"]
-            if opt["grid"]:
-                g = np.random.default_rng(sd).uniform(0.2, 2.0, (200, 3))
-                np.savetxt(wd / "grid.dat", g)
-                kw["grid"] = str(wd / "grid.dat")
-            if opt["start"]:
-                first = mollist[0]["type"]
-                kw["start"] = [{"A": "A-RB#2", "V": "V-RA#2", "W": "W-W#1", "L": "L-RA#3"}[first]]
-            with w.recording(chooser=chooser) as rec:
-                try:
-                    gen_coords(toppath=wd / "s.top", outpath=wd / "out.gro", name="c03", max_force=1e12, **kw)
-                    DeferredFileWriter().write()
-                except _Timeout:
-                    return {"noverdict": "timeout"}
-                except w.NoVerdict as exc:
-                    return {"noverdict": str(exc)}
-                except Exception as exc:
-                    return {"error_in_code": "%s: %s" % (type(exc).__name__, exc), "evs": rec.events[-10:], "inst": rec.header}
-            atoms, box, extra = read_gro(wd / "out.gro")
-            return {"atoms": atoms, "box": box, "extra_lines": extra, "evs": rec.events, "inst": rec.header, "error_in_code": None}
+            return _run_in(wd, case, sd)
     except _Timeout:
         return {"noverdict": "timeout"}
     finally:
         signal.setitimer(signal.ITIMER_REAL, 0)
+
+
+def _run_history(arg):
+    """GenCoordsHist: the calls of one history in THIS process on ONE directory rewritten in place between the calls"""
+    cases, rws, sd = arg
+    signal.signal(signal.SIGALRM, _alarm)
+    outs = []
+    with tempfile.TemporaryDirectory(prefix="verif_c03h_", dir="/var/tmp") as wd:
+        for k, (case, rw) in enumerate(zip(cases, rws)):
+            signal.setitimer(signal.ITIMER_REAL, 170, 5)
+            try:
+                # rw False: the same files again, untouched (the call before left them as they are)
+                outs.append(_run_in(wd, case, sd + k if rw else sd + k - 1, split=True, in_place=True))
+            except _Timeout:
+                outs.append({"noverdict": "timeout"})
+            finally:
+                signal.setitimer(signal.ITIMER_REAL, 0)
+            if "noverdict" in outs[-1]:
+                break
+    return outs
 
 
 def compare(case, out):
@@ -228,9 +270,15 @@ def run(tier):
     ck.assumptions = ["density box compared with relative tolerance 2e-4 on the volume (the code rounds the edge to 5 decimals)",
                       "at least one of -box / -dens / input structure is given (otherwise gen_coords has no box to use)"]
     ck.stage("TLC: box rule, export")
-    small, dev, ex = c.tlc_many([("MC_GenCoordsOut", "GCO_small.cfg", {"workers": 6}),
-                                 ("MC_GenCoordsOut", "GCO_dev_box.cfg", {"check": False, "workers": 2}),
-                                 ("MC_GenCoordsOutX", "GCO_export.cfg", {"workers": 4})])
+    small, dev, ex, hist, hdev1, hdev2 = c.tlc_many([("MC_GenCoordsOut", "GCO_small.cfg", {"workers": 6}),
+                                                     ("MC_GenCoordsOut", "GCO_dev_box.cfg", {"check": False, "workers": 2}),
+                                                     ("MC_GenCoordsOutX", "GCO_export.cfg", {"workers": 4}),
+                                                     ("GenCoordsHist", "GCH_small.cfg", {"workers": 1}),
+                                                     ("GenCoordsHist", "GCH_dev_inc.cfg", {"check": False, "workers": 1}),
+                                                     ("GenCoordsHist", "GCH_dev_struct.cfg", {"check": False, "workers": 1})])
+    ck.model_must_hold(hist, "HistoryFree/ConsistentInput/NoMemory (call histories on one directory rewritten in place)")
+    ck.model_must_refute(hdev1, "HistoryFree", "the included file is remembered by path from its first read")
+    ck.model_must_refute(hdev2, "HistoryFree", "the topology / the input structure is remembered by path from its first read")
     ck.model_must_hold(small, "BoxRule/DensityAvailable")
     ck.model_must_refute(dev, "BoxRule", "command-line box wins over the structure box")
     ck.model_must_hold(ex, "export")
@@ -264,6 +312,42 @@ def run(tier):
     for kind in ("structure", "option", "density"):
         ck.require(ck.actions.get("box:" + kind), "no run exercised the %s box" % kind)
     ck.sample({"case": {k: picked[0][k] for k in ("mollist", "opt", "box", "mass")}, "listing head": picked[0]["listing"][:4]})
+    ck.stage("S->I: call histories in one process on one directory (GenCoordsHist)")
+    hists = hist.cases()
+    ck.require(len(hists) >= 40, "too few call histories exported: %d" % len(hists))
+    if tier == "quick":
+        hists = [h for h in hists if len(set(h["ids"])) > 1][:: 2] + [h for h in hists if len(set(h["ids"])) == 1][:2]
+    # the three input ids of a history are three exported cases that differ in molecule list and options (drawn per history)
+    pool = [cs for cs in cases if sum(e["n"] for e in cs["mollist"]) <= 4]
+    jobs = []
+    for hi, h in enumerate(hists):
+        hr = random.Random(sd * 977 + hi)
+        trio = []
+        while len(trio) < 3:
+            cand = hr.choice(pool)
+            if all(cand["mollist"] != t["mollist"] for t in trio):
+                trio.append(cand)
+        jobs.append(([trio[i - 1] for i in h["ids"]], h["rw"], sd * 20000 + 10 * hi))
+    nh = 0
+    for (hcases, rws, hsd), outs in zip(jobs, c.pmap(_run_history, jobs)):
+        for k, out in enumerate(outs):
+            if "noverdict" in out:
+                nov += 1
+                break
+            nh += 1
+            ck.evaluations += 1
+            bad = out.get("error_in_code") or compare(hcases[k], out)
+            if bad:
+                ck.violation({"kind": "history", "cases": hcases[:k + 1], "rw": rws[:k + 1], "seed": hsd, "call": k + 1, "detail": bad},
+                             what="call %d of a history of gen_coords calls in one process (files rewritten in place: %s; molecule lists %s): %s"
+                                  % (k + 1, rws[:k + 1], [x["mollist"] for x in hcases[:k + 1]], bad))
+                break
+            ck.actions["hist:call%d" % (k + 1)] = ck.actions.get("hist:call%d" % (k + 1), 0) + 1
+            if out["inst"]:
+                traces.append({"inst": out["inst"], "evs": out["evs"]})
+    ck.replayed += len(jobs)
+    ck.extra["history_calls_compared"] = nh
+    ck.require(ck.actions.get("hist:call3"), "no history reached its third call (vacuous)")
     ck.stage("I->S: build traces")
     if traces:
         c17.validate(ck, traces, "runs")
@@ -274,6 +358,12 @@ def run(tier):
 def replay(path):
     doc = json.loads(open(path).read())
     case = doc["case"]
+    if case.get("kind") == "history":
+        outs = _run_history((case["cases"], case["rw"], case["seed"]))
+        k = len(outs) - 1
+        bad = outs[k].get("error_in_code") or ("noverdict" in outs[k] and "no verdict") or (k == case["call"] - 1 and compare(case["cases"][k], outs[k]))
+        print("replayed:", bad or "no violation")
+        return 1 if bad and bad != "no verdict" else 0
     out = _run_one((case["case"], case["seed"]))
     bad = out.get("error_in_code") or ("noverdict" in out and "no verdict") or compare(case["case"], out)
     print("replayed:", bad or "no violation")
